@@ -374,3 +374,59 @@ Theorem distinct_nonces_give_freshness :
     forall k n m m', issued_of_log log k n m -> issued_of_log log k n m' -> m = m'.
 Proof. intros key log. apply distinct_nonces_fresh. Qed.
 Print Assumptions distinct_nonces_give_freshness.
+
+(* ---- third round: loaders (index loading, snapshot listing, prune, check ...) ---- *)
+
+(* regenerated from index.rs / decrypt.rs and the inventory of index consumers: every consumer
+   streams ALL listed index files (stream_all::<IndexFile>), stream_all hands the complete listing
+   to stream_list, stream_list reads every id with get_file *)
+Theorem loader_reads_every_listed_file : x_loader_reads_every_listed_file = true.
+Proof. reflexivity. Qed.
+Print Assumptions loader_reads_every_listed_file.
+
+(* For the loader found in the source: if ANY stored file of the type does not read by id
+   (tampered in any way the by-id read detects), loading the type fails as a whole … *)
+Theorem loader_detects_any_unreadable_file :
+  forall (key : Type) dec zdec (hash : bytes -> fid) k (s : store) i d,
+    lookup s i = Some d ->
+    is_err (read_repo_file key dec zdec hash x_read_verifies_id false k s i) ->
+    is_err (load_type key dec zdec hash x_loader_reads_every_listed_file x_read_verifies_id k s).
+Proof. intros. eapply complete_loader_detects; eassumption. Qed.
+Print Assumptions loader_detects_any_unreadable_file.
+
+(* … in particular a file truncated to ZERO bytes (every length below 32 is refused by
+   Key::decrypt_data, short_input_rejected) … *)
+Theorem empty_file_fails_the_load :
+  forall (key : Type) dec zdec (hash : bytes -> fid) k (s : store) i,
+    lookup s i = Some [] ->
+    is_err (load_type key dec zdec hash x_loader_reads_every_listed_file x_read_verifies_id k s).
+Proof.
+  intros. eapply complete_loader_detects; [eassumption|]. apply empty_file_never_reads. assumption.
+Qed.
+Print Assumptions empty_file_fails_the_load.
+
+(* … and a successful load returns, file by file, what the by-id read returns for every listed id
+   (with substitution_detected: the data that was written) *)
+Theorem loader_sound :
+  forall (key : Type) dec zdec (hash : bytes -> fid) k (s : store) xs,
+    load_type key dec zdec hash x_loader_reads_every_listed_file x_read_verifies_id k s = Ok xs ->
+    map fst xs = map fst (listing s)
+    /\ forall i x, In (i, x) xs -> read_repo_file key dec zdec hash x_read_verifies_id false k s i = Ok x.
+Proof. intros. eapply complete_loader_sound; eassumption. Qed.
+Print Assumptions loader_sound.
+
+(* a loader that skips listed files of size 0 ("leftovers of interrupted uploads") does NOT have
+   this property: the truncated file is silently left out *)
+Theorem filtering_loader_misses_truncated_file_refuted :
+  exists (s : store) i xs,
+    lookup s i = Some []
+    /\ load_type tkey (toy_dec ex_log) (toy_zdec []) toy_hash false true 7 s = Ok xs
+    /\ ~ In i (map fst xs)
+    /\ is_err (load_type tkey (toy_dec ex_log) (toy_zdec []) toy_hash true true 7 s).
+Proof.
+  set (c1 := encrypt_file tkey toy_enc (toy_zenc []) (Some 3%Z) 7 ex_n1 ex_d1).
+  exists [(toy_hash c1, c1); (5, [])], 5, [(toy_hash c1, ex_d1)].
+  split; [reflexivity|]. split; [vm_compute; reflexivity|].
+  split; [vm_compute; intros [H|[]]; discriminate|eexists; vm_compute; reflexivity].
+Qed.
+Print Assumptions filtering_loader_misses_truncated_file_refuted.
